@@ -44,10 +44,18 @@ struct Base {
 
 fn bases() -> Vec<Base> {
     let mut v = Vec::new();
-    for method in ["GET", "PUT"] {
-        for path in ["/bkt/a", "/bkt/a%20b", "/bkt/a%2Bb", "/bkt/a/b", "/bkt/%C3%A9", "/bkt/a%3Fb%23c%25d", "/bkt/a%2520b"] {
+    // the paths and query multisets of header authentication (C05) and the presigned-specific query shapes
+    let paths: Vec<&'static str> = crate::props::c05::PATHS.iter().copied().chain(["/bkt/a%3Fb%23c%25d"]).collect();
+    let mut queries: Vec<&'static str> = crate::props::c05::QUERIES.to_vec();
+    for q in ["response-content-type=text%2Fplain", "versionId=v1&a=%20+", "k=%2541", "uploads", "tagging=", "prefix=&max-keys=1&delimiter"] {
+        if !queries.contains(&q) {
+            queries.push(q);
+        }
+    }
+    for method in ["GET", "PUT", "DELETE", "HEAD"] {
+        for &path in &paths {
             // (incl. parameters without a value, bare and with '=': sub-resource markers and empty prefixes are signed as `name=`)
-            for query in ["", "a=1", "response-content-type=text%2Fplain", "versionId=v1&a=%20+", "k=%2541", "uploads", "tagging=", "prefix=&max-keys=1&delimiter", "x-a1=1&x-a%3Ab=2", "nam%C3%A9=2&name=1"] {
+            for &query in &queries {
                 for (meta, hshape) in [(false, 0u8), (true, 0), (true, 1), (true, 2)] {
                     for h2 in [false, true] {
                         if h2 && (meta || !query.is_empty()) {
@@ -103,6 +111,21 @@ fn judged_expires(e: &str) -> Option<i64> {
     }
     let v: i64 = e.parse().ok()?;
     (1..=604_800).contains(&v).then_some(v)
+}
+
+/// Root-cause attribution shared with C05: an honest request refused while it carries same-name query parameters that are
+/// not in ascending order of value on the wire (the canonical form sorts them by value; the implementation keeps wire order).
+fn fp_of(default: String, kind: &str, r: &Req) -> String {
+    if kind == "false-reject" {
+        if let Some(q) = parse_query(r.query()) {
+            for (i, (n, v)) in q.iter().enumerate() {
+                if q[i + 1..].iter().any(|(m, w)| n == m && v > w) {
+                    return "C06/false-reject/same-name-query-parameters-not-sorted-by-value".to_owned();
+                }
+            }
+        }
+    }
+    default
 }
 
 fn qparts(r: &Req) -> Vec<String> {
@@ -469,7 +492,7 @@ pub fn run(ctx: &Ctx) -> (Acc, Report) {
                                 a.nontrivial(fnv(id().as_bytes()));
                                 a.outcome(&format!("sdk-url ref={} impl={}", reference.accepted(), obs.accepted_as.is_some()));
                                 if let Some((kind, msg)) = judge(&reference, &obs, &secret_of) {
-                                    a.fail(&format!("C06/{kind}/aws-sigv4-presigned-url"), bi, id(), msg, json!({"request": theirs.describe()}));
+                                    a.fail(&fp_of(format!("C06/{kind}/aws-sigv4-presigned-url"), kind, &theirs), bi, id(), msg, json!({"request": theirs.describe()}));
                                 }
                             }
                         } else {
@@ -517,7 +540,7 @@ pub fn run(ctx: &Ctx) -> (Acc, Report) {
                 a.outcome(&format!("window ref={} impl={}", if reference.accepted() { "accept" } else { "reject" }, if obs.accepted_as.is_some() { "accept".to_owned() } else { format!("reject:{}", obs.verdict) }));
                 if let Some((kind, msg)) = judge(&reference, &obs, &secret_of) {
                     let edge = if now_ms < t0 * 1000 { "skew-boundary" } else { "expiry-boundary" };
-                    a.fail(&format!("C06/{kind}/window/{edge}"), bi * 1000 + ei as u64, id(), msg, json!({"request": req.describe(), "now_minus_t0_ms": now_ms - t0 * 1000, "expires": e, "reference": format!("{reference:?}")}));
+                    a.fail(&fp_of(format!("C06/{kind}/window/{edge}"), kind, &req), bi * 1000 + ei as u64, id(), msg, json!({"request": req.describe(), "now_minus_t0_ms": now_ms - t0 * 1000, "expires": e, "reference": format!("{reference:?}")}));
                 }
                 if bi == 0 && ei == 1 {
                     a.sample((now_ms - t0 * 1000 + 1_000_000) as u64, json!({"target": req.target, "now_minus_signing_time_ms": now_ms - t0 * 1000, "reference": format!("{reference:?}"), "implementation": obs.verdict}));
@@ -554,7 +577,7 @@ pub fn run(ctx: &Ctx) -> (Acc, Report) {
                 continue;
             }
             if let Some((kind, msg)) = judge(&reference, &obs, &sof) {
-                a.fail(&format!("C06/{kind}/{}", mu.kind(&good)), bi * 1000 + mi as u64, id(), msg, json!({"request": req.describe(), "reference": format!("{reference:?}")}));
+                a.fail(&fp_of(format!("C06/{kind}/{}", mu.kind(&good)), kind, &req), bi * 1000 + mi as u64, id(), msg, json!({"request": req.describe(), "reference": format!("{reference:?}")}));
             }
         }
         // (2b) thorough: every pair of mutations (bound 2), judged the same way
@@ -597,7 +620,7 @@ pub fn run(ctx: &Ctx) -> (Acc, Report) {
                     a.nontrivial(fnv(id().as_bytes()));
                     a.outcome(&format!("mutation pair ref={} impl={}", if reference.accepted() { "accept" } else { "reject" }, if obs.accepted_as.is_some() { "accept".to_owned() } else { format!("reject:{}", obs.verdict) }));
                     if let Some((kind, msg)) = judge(&reference, &obs, &sof) {
-                        a.fail(&format!("C06/{kind}/{}+{}", m1.kind(&good), m2.kind(&good)), bi * 1_000_000 + (i * 1000 + j) as u64, id(), msg, json!({"request": req.describe(), "reference": format!("{reference:?}")}));
+                        a.fail(&fp_of(format!("C06/{kind}/{}+{}", m1.kind(&good), m2.kind(&good)), kind, &req), bi * 1_000_000 + (i * 1000 + j) as u64, id(), msg, json!({"request": req.describe(), "reference": format!("{reference:?}")}));
                     }
                 }
             }
